@@ -279,7 +279,9 @@ def layer_keywords():
 
 
 # (the last two: the byte-order-mark character U+FEFF / ZERO WIDTH NO-BREAK SPACE and U+FFFE as ordinary text INSIDE a label)
-UNICODE_FORMS = ("ab\ufeffcd", "x\ufffe", "e\u0301", "a\u0303b", "\u1112\u1161\u11ab", "\u212b", "\u2126", "\ufb01", "\u00e9", "e\u0323\u0302", "x\u0301\u0301", "\U0001f600\u200d",
+# (then: NUL and another C0 control inside a label - in UTF-8 they are the bytes 00 and 01, which say nothing about the file's encoding; a Malayalam
+# letter U+0D0A and U+0D05 before a line feed - in UTF-16 their bytes contain the pair 0D 0A although the text holds no CR LF)
+UNICODE_FORMS = ("ab\ufeffcd", "x\ufffe", "a\x00b", "x\x01y", "\u0d0a", "\u0d0a\u0d0a", "ab\u0d05\nq", "e\u0301", "a\u0303b", "\u1112\u1161\u11ab", "\u212b", "\u2126", "\ufb01", "\u00e9", "e\u0323\u0302", "x\u0301\u0301", "\U0001f600\u200d",
                  "I\u0307", "\u01c5", "\u00df", "\u1e9e", "A\u030a", "\u00c5")
 
 
@@ -292,7 +294,8 @@ def layer_unicode_forms():
     for u in UNICODE_FORMS:
         yield ("A", (u, "ilabel1"), skeleton(l1=u), 1e-8)
         yield ("A", (u, "plabel"), skeleton(pm=u), 1e-8)
-        yield ("A", (u, "name"), skeleton(iname=u), 1e-8)
+        if "\n" not in u:      # (tier names are one-line fields, as in the labels layer)
+            yield ("A", (u, "name"), skeleton(iname=u), 1e-8)
     for a, b in (("e\u0301", "\u00e9"), ("A\u030a", "\u00c5"), ("\u212b", "\u00c5"), ("I\u0307", "i\u0307")):
         yield ("A", (a + "|" + b, "both"), skeleton(l1=a, l2=b, iname=a, pname=b), 1e-8)
     # characters that str.splitlines() takes for line boundaries and the TextGrid format does not (vertical tab, form feed, the information
